@@ -8,7 +8,9 @@ implementation's arrays -> shrink -> violations.
 """
 import copy
 import json
+import os
 import re
+import shutil
 import subprocess
 import sys
 from fractions import Fraction as F
@@ -620,6 +622,8 @@ def main(ctx):
     ]
     ctx.assumptions += ['every query on a freshly built FEMData', 'positive elements',
                         'wf ids (distinct node ids, distinct element ids)']
+    ctx.scratch = ctx.scratch / f'run_{os.getpid()}'     # concurrent runs do not collide
+    ctx.scratch.mkdir(parents=True, exist_ok=True)
     try:
         variant, sha = detect_metric_variant()
         ctx.sources['geometry_processor.py:calculate_element_metrics'] = sha
@@ -669,13 +673,17 @@ def main(ctx):
         bad = [o['name'] for o in ctx.obligations if not o['discharged']]
         ctx.violation('proof-broken', {}, 'all theorems of C14/Props.v check', 'do not check',
                       ', '.join(bad), found_input=False, signature={'kind': 'proof-broken'})
-    return ctx.finish()
+    rc = ctx.finish()
+    shutil.rmtree(ctx.scratch, ignore_errors=True)
+    return rc
 
 
 def replay(path):
     rp = json.loads(Path(path).read_text())
     c = rp['case']
     ctx = lib.Ctx(PID, 'quick')
+    ctx.scratch = ctx.scratch / f'replay_{os.getpid()}'
+    ctx.scratch.mkdir(parents=True, exist_ok=True)
     if 'mesh' not in c or 'query' not in c:
         print('nothing to replay on the implementation:', json.dumps(rp, indent=1)[:2000])
         return 1
